@@ -47,6 +47,7 @@ type histOut struct {
 	Expvar      map[string]int64 `json:"expvar"`
 	SetupErr    string           `json:"setup_err,omitempty"`
 	Inconcl     string           `json:"inconclusive,omitempty"`
+	Marks       []mark           `json:"marks"`
 	DrainQuiet  bool             `json:"drain_quiet"`
 	DrainWaitMs int64            `json:"drain_wait_ms"`
 }
@@ -88,6 +89,17 @@ var setupReqs = []reqSpec{
 		"INSERT INTO u(a,b) VALUES(1,'x'),(2,'y'),(3,'z')",
 	}, Kinds: []string{"insertN", "insertU"}},
 	{No: -1, Stmts: []string{"INSERT INTO nf(v) VALUES('seed')"}, Kinds: []string{"insertNF"}},
+}
+
+// mark is a harness action on one node, placed in the same sequence as the
+// payload receipts and leader-change signals.
+type mark struct {
+	Seq      int64  `json:"seq"`
+	Kind     string `json:"kind"` // snapshot | restart
+	Node     string `json:"node"`
+	Applied  uint64 `json:"applied_index,omitempty"` // the node's applied index when a snapshot was requested
+	IsLeader bool   `json:"is_leader,omitempty"`
+	Status   int    `json:"status,omitempty"`
 }
 
 type postResult struct {
@@ -224,7 +236,7 @@ func resultsAgree(rq *reqSpec, got []hcluster.Result, want []sqlref.RefRes) stri
 
 func runHistory(c *vf.Ctx, caseNo int, dir string) (h histOut, cleanup func()) {
 	cleanup = func() {}
-	cs := genCase(c, caseNo)
+	cs := caseFor(c, caseNo)
 	h.Spec = cs
 	w := &world{cs: cs, insts: map[string]int{}, pending: map[string]*cdcInst{}, cdc: map[string]*cdcInst{}}
 	if cs.Filter != "" {
@@ -367,9 +379,17 @@ func runHistory(c *vf.Ctx, caseNo int, dir string) (h histOut, cleanup func()) {
 			time.Sleep(200 * time.Millisecond)
 		}
 	}
+	if cs.Directed != "" {
+		if !runDirected(w, &h, doReq, noteLeader) {
+			return
+		}
+	}
 	ep.setCalm(false)
 	outageUntil := -1
 	for i := range cs.Requests {
+		if cs.Directed != "" {
+			break
+		}
 		rq := &cs.Requests[i]
 		if outageUntil >= 0 && i >= outageUntil {
 			ep.setOutage(false)
@@ -400,6 +420,7 @@ func runHistory(c *vf.Ctx, caseNo int, dir string) (h histOut, cleanup func()) {
 					desc += "(leader)"
 				}
 				logf("fault %s", desc)
+				h.Marks = append(h.Marks, mark{Seq: w.seq.Add(1), Kind: "restart", Node: victim.Name, IsLeader: victim == ld})
 				if err := w.restart(victim); err != nil {
 					h.Inconcl = "restart failed: " + err.Error()
 					return
@@ -409,7 +430,10 @@ func runHistory(c *vf.Ctx, caseNo int, dir string) (h histOut, cleanup func()) {
 				if victim == nil {
 					victim = live[0]
 				}
+				mk := mark{Kind: "snapshot", Node: victim.Name, Applied: victim.Store.AppliedIndex(), IsLeader: victim.Store.IsLeader()}
 				rr := cl.Do(victim, "POST", fmt.Sprintf("/snapshot?trailing_logs=%d", f.Param*5), nil, nil)
+				mk.Seq, mk.Status = w.seq.Add(1), rr.Status
+				h.Marks = append(h.Marks, mk)
 				desc += fmt.Sprintf(":%s:trailing=%d:status=%d", victim.Name, f.Param*5, rr.Status)
 			case "outage":
 				ep.setOutage(true)
@@ -464,8 +488,13 @@ func runHistory(c *vf.Ctx, caseNo int, dir string) (h histOut, cleanup func()) {
 		lastCount, lastLeader = cnt, name
 		q := time.Since(quietSince)
 		if q >= 2500*time.Millisecond {
-			// early exit only when nothing that must arrive is still missing
-			if q >= 10*time.Second || !anyRequiredMissing(h.Expected, ep.snapshot()) {
+			// early exit only when nothing that must arrive is still missing; the
+			// long wait covers the batching delay (changes may still sit in a batcher)
+			long := 10 * time.Second
+			if d := time.Duration(cs.BatchDelayMs)*time.Millisecond + 5*time.Second; d > long {
+				long = d
+			}
+			if q >= long || !anyRequiredMissing(h.Expected, ep.snapshot()) {
 				h.DrainQuiet = true
 				break
 			}
@@ -510,6 +539,140 @@ func runHistory(c *vf.Ctx, caseNo int, dir string) (h histOut, cleanup func()) {
 		}
 	}
 	return
+}
+
+// runDirected is the scripted history of genDirected. It returns false when
+// the history cannot go on (h.Inconcl / h.SetupErr say why).
+func runDirected(w *world, h *histOut, doReq func(*reqSpec) bool, noteLeader func()) bool {
+	cs, cl, ep := w.cs, w.cl, w.ep
+	snapshotOn := func(n *hcluster.Node) int {
+		mk := mark{Kind: "snapshot", Node: n.Name, Applied: n.Store.AppliedIndex(), IsLeader: n.Store.IsLeader()}
+		rr := cl.Do(n, "POST", "/snapshot", nil, nil)
+		mk.Seq, mk.Status = w.seq.Add(1), rr.Status
+		h.Marks = append(h.Marks, mk)
+		h.Faults = append(h.Faults, fmt.Sprintf("snapshot:%s:leader=%v:applied=%d:status=%d", n.Name, mk.IsLeader, mk.Applied, rr.Status))
+		logf("directed: %s", h.Faults[len(h.Faults)-1])
+		return rr.Status
+	}
+	// 0. everything so far delivered (the leader's batcher is flushed by a snapshot on the leader)
+	ld := cl.WaitLeader(30 * time.Second)
+	if ld == nil {
+		h.Inconcl = "directed: no leader"
+		return false
+	}
+	noteLeader()
+	snapshotOn(ld)
+	for t0 := time.Now(); anyRequiredMissing(h.Expected, ep.snapshot()); {
+		if time.Since(t0) > 60*time.Second {
+			h.Inconcl = "directed: the setup changes were not delivered within 60 s"
+			return false
+		}
+		time.Sleep(200 * time.Millisecond)
+	}
+	// 1. endpoint down: nobody can deliver, no high-water mark moves
+	ep.setCalm(false)
+	ep.setOutage(true)
+	h.Faults = append(h.Faults, "outage:start")
+	// 2. W1 on the leader; every node captures the changes into its batcher
+	var lastIdx uint64
+	for i := 0; i < cs.NW1; i++ {
+		if !doReq(&cs.Requests[i]) {
+			return false
+		}
+		if lg := h.Reqs[len(h.Reqs)-1]; lg.Class != "applied" {
+			h.Inconcl = fmt.Sprintf("directed: W1 request %d was not plainly applied (%s)", i, lg.Class)
+			return false
+		} else {
+			lastIdx = lg.Index
+		}
+	}
+	// 3. a follower that has applied W1 takes a snapshot inside the batching window ...
+	ld = cl.Leader()
+	var followers []*hcluster.Node
+	for _, n := range cl.Live() {
+		if n != ld {
+			followers = append(followers, n)
+		}
+	}
+	if ld == nil || len(followers) != 2 {
+		h.Inconcl = "directed: leadership moved during W1"
+		return false
+	}
+	f := followers[cs.Pick%2]
+	for t0 := time.Now(); f.Store.AppliedIndex() < lastIdx; {
+		if time.Since(t0) > 20*time.Second {
+			h.Inconcl = "directed: follower did not apply W1 within 20 s"
+			return false
+		}
+		time.Sleep(10 * time.Millisecond)
+	}
+	t1 := time.Now()
+	if st := snapshotOn(f); st != 200 {
+		h.Inconcl = fmt.Sprintf("directed: snapshot on follower %s answered %d", f.Name, st)
+		return false
+	}
+	if f.Store.IsLeader() {
+		h.Inconcl = "directed: the follower became leader"
+		return false
+	}
+	// 4. ... and goes down at once
+	h.Marks = append(h.Marks, mark{Seq: w.seq.Add(1), Kind: "restart", Node: f.Name})
+	name := f.Name
+	if err := w.restart(f); err != nil {
+		h.Inconcl = "restart failed: " + err.Error()
+		return false
+	}
+	h.Faults = append(h.Faults, fmt.Sprintf("restart:%s:%dms-after-snapshot-request", name, time.Since(t1).Milliseconds()))
+	logf("directed: %s", h.Faults[len(h.Faults)-1])
+	// 5. leadership moves to the restarted node while the endpoint is still down
+	var nf *hcluster.Node
+	for t0 := time.Now(); ; {
+		for _, n := range cl.Live() {
+			if n.Name == name {
+				nf = n
+			}
+		}
+		cur := cl.Leader()
+		if cur != nil && cur == nf {
+			break
+		}
+		if time.Since(t0) > 60*time.Second {
+			h.Inconcl = "directed: leadership could not be moved to the restarted node within 60 s"
+			return false
+		}
+		if cur != nil {
+			cur.Store.Stepdown(true, nf.ID)
+		}
+		time.Sleep(300 * time.Millisecond)
+	}
+	noteLeader()
+	h.Faults = append(h.Faults, "leadership-moved-to:"+name)
+	// the service must know it too before the endpoint comes back
+	for t0 := time.Now(); ; {
+		w.mu.Lock()
+		ci := w.cdc[name]
+		w.mu.Unlock()
+		if ci != nil && ci.svc.IsLeader() {
+			break
+		}
+		if time.Since(t0) > 30*time.Second {
+			h.Inconcl = "directed: the CDC service of the new leader never learnt it is leader"
+			return false
+		}
+		time.Sleep(50 * time.Millisecond)
+	}
+	// 6. endpoint back; W2 on the new leader, flushed by a snapshot on the leader
+	ep.setCalm(true)
+	h.Faults = append(h.Faults, "outage:end")
+	for i := cs.NW1; i < len(cs.Requests); i++ {
+		if !doReq(&cs.Requests[i]) {
+			return false
+		}
+	}
+	if cur := cl.Leader(); cur != nil {
+		snapshotOn(cur)
+	}
+	return true
 }
 
 func droppedCDC() int64 {
